@@ -55,6 +55,10 @@ class Ctx:
 
     # -- obligations
     def ob(self, rule, key, where, what, ok, how="", nontrivial=True, witness=None):
+        if not ok and "('U',)" in (how or ""):
+            # the evidence is an Unknown of the abstract execution: the code was not understood, which is
+            # not a witness of a violation
+            return self.inconclusive(rule, key, where, what, "abstract execution lost track of a value: " + how)
         st = DISCHARGED if ok else VIOLATION
         o = Ob(rule, key, where, what, st, how, nontrivial, witness)
         self.obs.append(o)
